@@ -75,7 +75,21 @@ def finish(prop, tier, seed, run, wall, rule, explore=False, extra_cov=None, wri
         ent = [e for e in run.known.entries if e["id"] == kid][0]
         print("KNOWN-FINDING: property=%s %s [%s, re-observed %d times]" % (prop, ent["what"], kid, cnt))
     nviol = 0
+    nmin = 0
     for skey, e in run.findings.items():
+        # witness minimisation (ddmin over the strings, then shortening them) while the signature stays the same
+        c = e.get("case")
+        if isinstance(c, Case) and len(c.S) > 6 and nmin < 4 and e["sig"]["fclass"] not in ("transcript-differs", "uninit-in-image", "uninit-influences-answers"):
+            try:
+                import minimize
+                nmin += 1
+                mrun = DictRun(prop, tier, seed, run.workdir, Known(os.devnull))
+                m = minimize.minimize(mrun, c, prop, {"fclass": e["sig"]["fclass"], "op": e["sig"]["op"], "site": e["sig"]["site"] if e["sig"]["site"] != "oracle" else None}, budget_s=25)
+                if len(m.S) < len(c.S):
+                    e["extra"] = {"original_input": c.iname, "original_n": len(c.S), "minimised_n": len(m.S)}
+                    e["case"] = m
+            except Exception as ex:
+                log("[minimise] failed: %s" % ex)
         path = write_replay(prop, skey, e)
         print("VIOLATION property=%s replay=%s" % (prop, path))
         print("   signature: %s (x%d)  %s" % (skey, e["count"], e["detail"][:300]))
@@ -252,6 +266,17 @@ def c13(prop, tier, seed, wd, explore, limit, kinds, we):
 @register("C15")
 def c15(prop, tier, seed, wd, explore, limit, kinds, we):
     cases = P.basic_cases(prop, seed, tier, ops=("meta",), states=("fresh", "own", "gen", "resaved"), per_input_states=3)
+    # lengths beyond 16 bits: a metadata field narrowed in one save/load pair only shows for such strings
+    r = P.rng_for(seed, prop, 77)
+    huge = gen.norm([b"a", b"b" + bytes(r.choice(b"cdefg") for _ in range(70000)), b"c", b"b" * 65535, b"ab"])
+    for kind in KINDS:
+        if kind == "XBW":
+            continue
+        p = P.param_vectors(kind, r, huge, 1)[0]
+        if kind == "FMINDEX":
+            p = (p[0], p[1], 0)
+        for st in (("fresh", "own") if kind == "BLOCKS" else ("own", "gen")):
+            cases.append(Case(kind, p, "huge70000", huge, st, P.opt_for(kind, r), ("meta",), seed=seed, cpu=900))
     return dict_check(prop, tier, seed, wd, explore, limit, kinds, we, cases, RULE_BASE + "; states fresh, own loader, generic loader, re-saved")
 
 @register("C14")
@@ -722,8 +747,13 @@ def c18(prop, tier, seed, wd, explore, limit, kinds, we):
     dc = P.basic_cases(prop, seed, tier, ops=("locate", "extract", "extractTable"), kinds=HT, per_input_states=1, families=["skewed", "uniform2", "uniform253", "lcp128x", "repetitive", "numerals", "extremes", "len1", "mixed", "words", "longshort"],
                        n_random=33 if tier == "quick" else 300, corner=True)
     dc += P.numeral_sweep(prop, seed, tier, ("locate", "extract"), kinds=("HTFC", "HHTFC"))
-    for c in dc:
-        pass
+    # texts of >= 2^17 characters with geometric symbol counts: codewords longer than the 16-bit chunk (decoding subtrees)
+    for v in range(1 if tier == "quick" else 6):
+        r = P.rng_for(seed, prop, 990000 + v)
+        S = gen.fam_geometric_big(r, 30000)
+        for kind in HT:
+            pp = (16,) if kind in FC else (r.choice([10, 25, 50]),)
+            dc.append(Case(kind, pp, "geometric_big:%d" % len(S), S, "own", 1, ("locate", "extract"), seed=gen.splitmix(seed, v, 31), cpu=600, tags=("gt16",)))
     rule = ("code tables: Hu-Tucker and Huffman tables for seeded frequency vectors of 9 shapes (uniform, Zipf, geometric, Fibonacci-like, one dominant symbol, random with the +1 floor, two-level, text-like, few symbols) must be "
             "prefix-free (pairwise), complete (Kraft sum 1) and, for Hu-Tucker, strictly increasing as left-aligned bit strings; decode(encode) is checked through HTFC / HHTFC / RPHTFC / HASHHF / HASHUFFDAC dictionaries built on "
             "texts of skewed, tiny-alphabet, 253-symbol, long-shared-prefix and numeral shapes (locate/extract/table against the model); a case is one comp_driver process or one dictionary case")
